@@ -11,6 +11,18 @@ C30 driver.  Every op of the C29 driver (per-read traces incl. `next_read_size`)
      SCHED  comma separated naturals, used cyclically from index OFF: the i-th read
             returns max 1 (min SCHED[i] want) bytes
   -> `h1,h2,… finished/<leftover>/<T|F decoded completely>`  or  `h1,… block/<want>/<avail>`
+
+  pipex MODE KIND W PREFED MSG SCHED OFF CAP
+     MODE  blk (as above) | eof (the peer closes after MSG: `pipeLoopEof`)
+     KIND  lp ck req (as above) | v3s v3c: the guarded decoders (bencode model `bencKind`;
+           v3c: W = T/F is the response-handler variant `fx`) | serve: `_get_line` + dispatch +
+           decoder from the first byte of the request (W = hex of the verb whose requests
+           carry a body) | c1n c1b c1s c2n c2b c2s: client protocol 1/2 response lines + body
+           reader (n none, b bulk, s stream)
+     CAP   0 = none, else every hint is `min hint CAP` (the medium's 64 KiB cap)
+  -> as above, or `h1,… eof/<T|F decoded completely>`
+
+  benc HEX -> `~` | int | str | list | dict      (model of fastbencode.bdecode_as_tuple)
 -/
 namespace BreezyVerif.C30
 open BreezyVerif.C29
@@ -22,6 +34,7 @@ def showOutcome {S : Type} (M : Machine S) : Outcome S → String
   | .finished s left => "finished/" ++ toHex left ++ "/" ++ showBool (M.fin s)
   | .wouldBlock _ want avail => "block/" ++ toString want ++ "/" ++ toString avail
   | .outOfFuel => "fuel"
+  | .eof s => "eof/" ++ showBool (M.fin s)
 
 def runPipe {S : Type} (M : Machine S) (s0 : S) (pre : Option Bytes) (msg : Bytes)
     (sched : List Nat) (off : Nat) : String :=
@@ -30,7 +43,71 @@ def runPipe {S : Type} (M : Machine S) (s0 : S) (pre : Option Bytes) (msg : Byte
   let fuel := msg.length + 2
   showHints (pipeHints M sc fuel off s msg) ++ " " ++ showOutcome M (pipeLoop M sc fuel off s msg)
 
+def runPipeX {S : Type} (M0 : Machine S) (eof : Bool) (cap : Nat) (s0 : S) (pre : Option Bytes)
+    (msg : Bytes) (sched : List Nat) (off : Nat) : String :=
+  let M := if cap = 0 then M0 else capMachine M0 cap
+  let sc : Nat → Nat := fun i => if sched.isEmpty then 0 else sched.getD (i % sched.length) 0
+  let s := match pre with | none => s0 | some p => M.feed s0 p
+  let fuel := msg.length + 2
+  if eof then
+    showHints (pipeHintsEof M sc fuel off s msg) ++ " " ++ showOutcome M (pipeLoopEof M sc fuel off s msg)
+  else
+    showHints (pipeHints M sc fuel off s msg) ++ " " ++ showOutcome M (pipeLoop M sc fuel off s msg)
+
+def showKind : Option BKind → String
+  | none => "~"
+  | some .int => "int"
+  | some .str => "str"
+  | some .list => "list"
+  | some .dict => "dict"
+
+def bodyKindOf : String → Option BodyKind
+  | "n" => some .none
+  | "b" => some .bulk
+  | "s" => some .stream
+  | _ => none
+
+def handlePipeX (mode kind w : String) (pre : Option Bytes) (msg : Bytes) (sched : List Nat)
+    (off cap : Nat) : String :=
+  match (match mode with | "blk" => some false | "eof" => some true | _ => none) with
+  | none => "bad-op"
+  | some eof =>
+    match kind, w with
+    | "lp", "-" => runPipeX lpMachine eof cap LP.init pre msg sched off
+    | "ck", "-" => runPipeX ckMachine eof cap CK.init pre msg sched off
+    | "req", "T" => runPipeX (reqMachine fun _ => true) eof cap (.line []) pre msg sched off
+    | "req", "F" => runPipeX (reqMachine fun _ => false) eof cap (.line []) pre msg sched off
+    | "v3s", "-" => runPipeX (v3gMachine bencIsDict bencValid) eof cap (V3.init false) pre msg sched off
+    | "v3c", "T" => runPipeX (v3cMachine bencIsDict bencValid bencIsList true) eof cap (V3.init true) pre msg sched off
+    | "v3c", "F" => runPipeX (v3cMachine bencIsDict bencValid bencIsList false) eof cap (V3.init true) pre msg sched off
+    | "serve", wv =>
+      match fromHex wv with
+      | none => "bad-op"
+      | some verb =>
+        runPipeX (serveMachine (fun args => args.head? == some verb) bencIsDict bencValid) eof cap
+          serveInit pre msg sched off
+    | k, "-" =>
+      match k.toList with
+      | ['c', '1', b] =>
+        match bodyKindOf (String.singleton b) with
+        | some bk => runPipeX (client1 bk) eof cap client1Init pre msg sched off
+        | none => "bad-op"
+      | ['c', '2', b] =>
+        match bodyKindOf (String.singleton b) with
+        | some bk => runPipeX (client2 bk) eof cap client2Init pre msg sched off
+        | none => "bad-op"
+      | _ => "bad-op"
+    | _, _ => "bad-op"
+
 def handle : List String → String
+  | ["pipex", mode, kind, w, pre, msg, sched, off, cap] =>
+    match parseOptB pre, fromHex msg, parseNatList sched, off.toNat?, cap.toNat? with
+    | some pre, some msg, some sched, some off, some cap => handlePipeX mode kind w pre msg sched off cap
+    | _, _, _, _, _ => "bad-op"
+  | ["benc", h] =>
+    match fromHex h with
+    | some b => showKind (bencKind b)
+    | none => "bad-op"
   | ["pipe", kind, w, pre, msg, sched, off] =>
     match parseOptB pre, fromHex msg, parseNatList sched, off.toNat? with
     | some pre, some msg, some sched, some off =>
